@@ -562,6 +562,50 @@ func TestVerif_Probes(t *testing.T) {
 	}) {
 		r.Violation("self-deadlock/duplicates", 0, map[string]any{"message": "WriteTxn(t1,t1,t0,t1,t2,t0) from a single goroutine did not return"})
 	}
+	// the collector is a writer too: with every deleted object still needed by a lagging iterator it has nothing to collect and must not
+	// take part in the locking at all - a long writer on one table then delays nobody on the others, also not through the collector
+	// (c10r8-1: the collector locking every table whose graveyard is non-empty sits on the lower table while it waits for the higher)
+	for round := 0; round < 6 && r.Violations() < 3; round++ {
+		dbg := statedb.New()
+		dbg.VerifSetGCInterval(time.Millisecond)
+		dbg.Start()
+		g := concw.NewTables(dbg, "g", 3)
+		held, other := 1, 0 // the long writer holds the table that sorts after the one probed
+		if round%2 == 1 {
+			held, other = 0, 1
+		}
+		w := dbg.WriteTxn(g[0], g[1], g[2])
+		g[0].Insert(w, &concw.Row{ID: "dead"})
+		g[1].Insert(w, &concw.Row{ID: "dead"})
+		it0, _ := g[0].Changes(w)
+		it1, _ := g[1].Changes(w)
+		it2, _ := g[2].Changes(w)
+		w.Commit()
+		w = dbg.WriteTxn(g[0], g[1])
+		g[0].Delete(w, &concw.Row{ID: "dead"})
+		g[1].Delete(w, &concw.Row{ID: "dead"})
+		w.Commit() // both graveyards non-empty, nothing collectable: it0 and it1 have not seen the deletions
+		long := dbg.WriteTxn(g[held])
+		g[held].Insert(long, &concw.Row{ID: "long"})
+		it2.Close() // triggers collection rounds
+		time.Sleep(30 * time.Millisecond)
+		ok := within(5*time.Second, func() {
+			w := dbg.WriteTxn(g[other])
+			g[other].Insert(w, &concw.Row{ID: "probe"})
+			w.Commit()
+		})
+		long.Commit()
+		r.Count("collector_independence_probes", 1)
+		r.Case(vkit.NewHash().Str("collector-nothing-collectable").Int(int64(round)).Sum(), true)
+		if !ok {
+			r.Violation("disjoint-blocked/collector-nothing-collectable", round, map[string]any{"message": fmt.Sprintf("a write transaction on table g%d did not complete within 5 s while a writer held only g%d and the collector ran with nothing collectable (every deleted object still needed by a lagging iterator)", other, held)})
+		}
+		if ok {
+			it0.Close()
+			it1.Close()
+			dbg.Stop()
+		}
+	}
 	// the same with many tables (c10r8-2: de-duplication through a 64-bit set): a database of 300 tables, table sets of 2-40 tables
 	// drawn from every region of the position range (0-63, 64-127, 128-255, 256-299), each named 1-4 times at random places of
 	// the argument list, so that repeats are adjacent and far apart; every table named must be writable in the transaction
